@@ -790,11 +790,7 @@ Definition run_reuse (ly : layer) (old : bytes) (start : res slice) (ops : list 
       match run_ops ly ops c0 (arr c0) "ok" "ok" fits0 with
       | Some (m, s, fits, cur, buf) =>
           let tail := BAR ++ show_hull old buf ++ BAR ++ l_rb ly cur in
-          (* recorded defect class: a step on a view that is not header-only returns a view whose
-             length is relative to the old view (len(p)+len(b)) while the length field is absolute *)
-          out3 (m ++ tail) (if fits then s ++ tail else "-")
-               (if fits && negb (String.eqb m s) && l_errbig ly && negb (Nat.eqb (l_hdr ly) 14)
-                then "reuse-relative-length" else "-")
+          out3 (m ++ tail) (if fits then s ++ tail else "-") "-"
       | None => out3 "panic" "-" "-"
       end
   | _ => out3 "panic" "-" "-"
